@@ -33,12 +33,21 @@ def classify(ctx: HandlerContext) -> Classification:
             i += 1
             break
         if tok.startswith("-"):
-            if tok in FLAGS_WITH_ARG:
-                i += 2
-            elif tok in FLAGS_NO_ARG or (len(tok) > 1 and tok[1] != "-"):
-                i += 1
-            else:
-                i += 1
+            # A cluster of the flags above (-aq, -qt 5, -t5); anything else (util-linux's
+            # -c COMMAND, long options) may run a different command than the operands
+            if tok.startswith("--") or len(tok) < 2:
+                return Classification("ask", description="script (unrecognized option)")
+            takes_arg = False
+            for j in range(1, len(tok)):
+                flag = "-" + tok[j]
+                if flag in FLAGS_WITH_ARG:
+                    takes_arg = j == len(tok) - 1
+                    break
+                if flag not in FLAGS_NO_ARG:
+                    return Classification(
+                        "ask", description="script (unrecognized option)"
+                    )
+            i += 2 if takes_arg else 1
         else:
             break
 
